@@ -146,7 +146,7 @@ Print Assumptions C20_split_example.
     structs (Gen/SchemaTables.v); a row is a mechanism type, its config object or
     one of its options *)
 Theorem C20_schema_loader_agree :
-  forall r, In r (all_rows schema_tbl loader_tbl) -> guard_F1 r = false ->
+  forall r, In r (all_rows schema_tbl loader_tbl) -> guard_F1 fixed_F1a fixed_F1b r = false ->
             row_agrees schema_tbl loader_tbl r = true.
 Proof. exact schema_loader_agree. Qed.
 Print Assumptions C20_schema_loader_agree.
@@ -156,7 +156,7 @@ Print Assumptions C20_schema_loader_agree.
     does not break the build; whether the current tree still shows them is
     reported by the replay stream on every run *)
 Theorem C20_F1_refuted :
-  exists r, In r (all_rows pinned_schema_tbl pinned_loader_tbl) /\ guard_F1 r = true /\
+  exists r, In r (all_rows pinned_schema_tbl pinned_loader_tbl) /\ guard_F1 false false r = true /\
             row_agrees pinned_schema_tbl pinned_loader_tbl r = false.
 Proof. exact F1_refuted. Qed.
 Print Assumptions C20_F1_refuted.
